@@ -253,8 +253,8 @@ func (p *Program) assumeGlobalFacts(e *Exec, fn *ssa.Function, h0 *Heap) {
 			vc.assume(not(eq(val, "0")))
 			used = true
 			if gf.Kind == "regexp" {
-				u.declareUF("re_numsubexp", "(declare-fun re_numsubexp (Int) Int)")
-				vc.assume(eq(app("re_numsubexp", val), fmt.Sprint(gf.NumSub)))
+				u.declareUF("gh_re_numsubexp", "(declare-fun gh_re_numsubexp (Ref) Int)")
+				vc.assume(eq(app("gh_re_numsubexp", val), fmt.Sprint(gf.NumSub)))
 			}
 		case "const":
 			vc.assume(eq(val, constTermOf(u, gf.Const, et)))
